@@ -1,19 +1,37 @@
 #!/bin/bash
-# usage: tools/seedcheck.sh <seed-dir> [tier] [check ids...]
-# Applies /verif/seeded/<seed-dir>/patch.diff to /repo, runs the given checks (default: the property named in meta.json),
-# prints their verdict lines, and ALWAYS restores /repo (git checkout -- .). Exit 0 if some check reported a VIOLATION.
+# usage: tools/seedcheck.sh [--apply] <seed-dir> [tier] [check ids...]
+# Runs checks against a seeded change (/verif/seeded/<seed-dir>/patch.diff).
+#  default mode : /repo is NOT touched; the patched files are produced in a scratch copy and layered over /repo through the
+#                 same `replace` overlay directive the mutants use (safe while other work builds from /repo);
+#  --apply mode : git -C /repo apply <patch>; run; git -C /repo checkout -- .   (the way the brief describes it).
+# Exit 0 if some check reported a VIOLATION (seed caught), 1 if none did, 2 on errors.
 set -u
 cd "$(dirname "${BASH_SOURCE[0]}")/.."
-S="seeded/$1"; shift
+MODE=overlay; [ "${1:-}" = "--apply" ] && { MODE=apply; shift; }
+S="seeded/$1"; NAME="$1"; shift
 TIER="${1:-quick}"; [ $# -gt 0 ] && shift
 [ -f "$S/patch.diff" ] || { echo "no $S/patch.diff"; exit 2; }
 if [ $# -eq 0 ]; then set -- $(python3 -c "import json;print(json.load(open('$S/meta.json'))['property'])"); fi
-[ -z "$(git -C /repo status --porcelain)" ] || { echo "/repo is dirty"; exit 2; }
-trap 'git -C /repo checkout -q -- . ; git -C /repo clean -fdq' EXIT
-git -C /repo apply "$S/patch.diff" || { echo "patch does not apply"; exit 2; }
 caught=1
+if [ "$MODE" = apply ]; then
+  [ -z "$(git -C /repo status --porcelain)" ] || { echo "/repo is dirty"; exit 2; }
+  trap 'git -C /repo checkout -q -- .' EXIT
+  git -C /repo apply "$S/patch.diff" || { echo "patch does not apply"; exit 2; }
+else
+  SC=".build/seed/$NAME"; rm -rf "$SC"; mkdir -p "$SC/src"
+  FILES=$(grep '^+++ b/' "$S/patch.diff" | sed 's#^+++ b/##')
+  for f in $FILES; do mkdir -p "$SC/src/$(dirname $f)"; cp "/repo/$f" "$SC/src/$f"; done
+  (cd "$SC/src" && patch -s -p1 < "../../../../$S/patch.diff") || { echo "patch does not apply"; exit 2; }
+fi
 for c in "$@"; do
-  out=$(./check "$c" "$TIER" 2>&1); rc=$?
+  lc=$(echo "$c" | tr 'A-Z' 'a-z')
+  if [ "$MODE" = apply ]; then
+    out=$(./check "$c" "$TIER" 2>&1); rc=$?
+  else
+    spec="$SC/$lc.spec"; cat "props/$lc/overlay.spec" 2>/dev/null > "$spec"
+    for f in $FILES; do echo "replace $f $PWD/$SC/src/$f" >> "$spec"; done
+    out=$(VERIF_SPEC="$PWD/$spec" ./check "$c" "$TIER" 2>&1); rc=$?
+  fi
   echo "== $c $TIER exit=$rc"; echo "$out" | grep -E "^VIOLATION|class:|BUILD-ERROR|HARNESS-ERROR|tier=" | head -8
   [ $rc -eq 1 ] && caught=0
 done
